@@ -240,6 +240,13 @@ func runRefRules(c *Ctx) {
 					probs = append(probs, "element address taken from "+descr(ia.X)+": "+why)
 					continue
 				}
+				// a reference resolved by position instead of by id (the sole agency of a feed): only for a row that names
+				// no id -- on every path that takes it, some id cell of the row was found blank
+				if k, isK := constInt(ia.Index); isK {
+					if why := positionalOnlyWhenBlank(c, ia); why != "" {
+						probs = append(probs, fmt.Sprintf("element %d of result.%s is used as the reference %s", k, rf.coll, why))
+					}
+				}
 				// R2: the address is taken when the slice no longer grows
 				if phi, isPhi := ia.X.(*ssa.Phi); isPhi {
 					for _, l := range naturalLoops(ia.Parent()) {
@@ -452,4 +459,56 @@ func runForest(c *Ctx) {
 			c.Check(kind != "", "FOREST", shortName(root), "walking to the root terminates", p.pos(root.Pos()), kind+": "+why, why)
 		}
 	}
+}
+
+// positionalOnlyWhenBlank: ia = &S[k] (k constant) inside a row loop: every path of one trip around the loop that
+// passes ia's block has found a cell of the row blank (x == "" with x read from a column). "" if so, else why not.
+func positionalOnlyWhenBlank(c *Ctx, ia *ssa.IndexAddr) string {
+	fn := ia.Parent()
+	var loop *Loop
+	for _, l := range naturalLoops(fn) {
+		if !l.Blocks[ia.Block()] {
+			continue
+		}
+		if iff, ok := l.Header.Instrs[len(l.Header.Instrs)-1].(*ssa.If); ok {
+			if call, ok := iff.Cond.(*ssa.Call); ok && calleeName(call) == "(*"+modPath+"/csv.File).NextRow" {
+				loop = l
+			}
+		}
+	}
+	if loop == nil {
+		return "" // not decided per row
+	}
+	b := newBinder(c)
+	n := 0
+	for _, pf := range iterationPaths(loop) {
+		at := -1
+		for i, blk := range pf.blocks {
+			if blk == ia.Block() {
+				at = i
+			}
+		}
+		if at < 0 {
+			continue
+		}
+		n++
+		blank := false
+		for _, f := range pf.facts {
+			if f.at >= at {
+				continue
+			}
+			cond, val := normalizeCond(f.ce.Cond, f.ce.Val)
+			bo, ok := cond.(*ssa.BinOp)
+			if !ok {
+				continue
+			}
+			if s, isS := constString(bo.Y); isS && s == "" && ((bo.Op == token.EQL && val) || (bo.Op == token.NEQ && !val)) && strings.Contains(b.bind(bo.X), "col:") {
+				blank = true
+			}
+		}
+		if !blank {
+			return "on a path on which no id cell of the row was found blank: a row that names another (unknown) id is bound to this element instead of being rejected"
+		}
+	}
+	return ""
 }
